@@ -63,14 +63,27 @@ pub fn validated_entrypoints<TCompilationProfile: CompilationProfile>(
                 )
                 .wrap_err(),
                 Some(DefinitionLocation::Client(SelectionType::Scalar(_))) => {
-                    TCompilationProfile::NetworkProtocol::get_query_root_entity(
+                    let parent_type = entrypoint_declaration_info.parent_type.item.0;
+                    let location = entrypoint_declaration_info.parent_type.location;
+                    let location = location.to::<Location>().wrap_some();
+                    let query_root = TCompilationProfile::NetworkProtocol::get_query_root_entity(
                         db,
-                        entrypoint_declaration_info.parent_type.item.0,
+                        parent_type,
                     )
-                    .map_err(|e| {
-                        let location = entrypoint_declaration_info.parent_type.location;
-                        Diagnostic::new(e.0.message, location.to::<Location>().wrap_some())
-                    })?;
+                    .map_err(|e| Diagnostic::new(e.0.message, location))?;
+
+                    // A type that is fetched through another type (e.g. via node(id: $id)) would need
+                    // variables that the client field does not declare, and is not read from the root.
+                    if query_root != parent_type {
+                        return Diagnostic::new(
+                            format!(
+                                "Entrypoints must be defined on a root type, but \
+                                `{parent_type}` is fetched through `{query_root}`."
+                            ),
+                            location,
+                        )
+                        .wrap_err();
+                    }
 
                     Ok(EntrypointDeclarationInfo {
                         iso_literal_text: entrypoint_declaration_info.iso_literal_text,
